@@ -46,7 +46,7 @@ Section Outside.
     - rewrite filter_app, emit_outside by exact Hp. destruct fl; reflexivity.
     - rewrite filter_app, emit_outside by exact Hp. reflexivity.
     - rewrite !filter_app, emit_outside by exact Hp. f_equal. f_equal.
-      destruct fl; auto. unfold flush_queue. apply filter_comm.
+      destruct fl; auto.
   Qed.
 
   Lemma outside_kids' ks p i s qv qp :
@@ -137,7 +137,7 @@ Section Path.
         * rewrite filter_app, emit_outside by exact Hp. destruct fl; reflexivity.
         * rewrite filter_app, emit_outside by exact Hp. reflexivity.
         * rewrite !filter_app, emit_outside by exact Hp. f_equal. f_equal.
-          destruct fl; auto. unfold flush_queue. apply filter_comm.
+          destruct fl; auto.
       + intros j p' r Hj Hp'. apply HF_out. rewrite HP. apply (is_prefix_sibling b (j0 + k) j (i' :: rest') p'); [lia | exact Hp'].
   Qed.
 
